@@ -91,19 +91,6 @@ ReadTagB(sch, cfg, inp, r, s) ==
             it |-> Item(IF ty = "raw" THEN "raw" ELSE "elem", h.id, start, ty, dec.val, <<>>)]
 
 RECURSIVE ReadNextB(_, _, _, _, _)
-RECURSIVE BufferLoopB(_, _, _, _, _, _, _, _, _)
-BufferLoopB(sch, cfg, inp, r, s, id, pre, p, m) ==
-  IF p > Len(r.queue) THEN
-    LET n == ReadNextB(sch, cfg, inp, r, s) IN
-    IF Len(n.r.queue) < p
-    THEN [r |-> [n.r EXCEPT !.queue = SubSeq(@, 1, pre) \o <<EofErr(m.start, TRUE, id, FALSE, <<>>, FALSE, <<>>)>>], s |-> n.s]
-    ELSE BufferLoopB(sch, cfg, inp, n.r, n.s, id, pre, p, m)
-  ELSE LET q == r.queue[p] IN
-    IF q.res = "err" THEN [r |-> [r EXCEPT !.queue = SubSeq(@, 1, pre) \o <<q>>], s |-> s]
-    ELSE IF q.kind = "end" /\ q.id = id
-         THEN [r |-> [r EXCEPT !.queue = SubSeq(@, 1, pre) \o <<Item("full", id, m.start, "master", <<>>, RollUp(SubSeq(@, pre + 1, p - 1)))>> \o Drop(@, p)], s |-> s]
-    ELSE BufferLoopB(sch, cfg, inp, r, s, id, pre, p + 1, m)
-
 ReadNextB(sch, cfg, inp, r0, s0) ==
   LET r == CloseExhausted([r0 EXCEPT !.pos = CurOff(s0)])
       \* read_tag_checked: with the buffer used up, ask the source for one more byte before concluding "no more tags"
@@ -120,17 +107,28 @@ ReadNextB(sch, cfg, inp, r0, s0) ==
       IF rt.master THEN
         LET m  == [id |-> rt.it.id, unk |-> rt.h.unk, size |-> rt.h.size, start |-> rt.it.off, dstart |-> rt.dstart, implied |-> FALSE]
             r3 == [r2 EXCEPT !.stack = Append(@, m)] IN
-        IF rt.it.id \in cfg.buffered
-        THEN BufferLoopB(sch, cfg, inp, r3, rt.s, rt.it.id, Len(r3.queue), Len(r3.queue) + 1, m)
-        ELSE [r |-> [r3 EXCEPT !.queue = Append(@, rt.it)], s |-> rt.s]
+        [r |-> [r3 EXCEPT !.queue = Append(@, rt.it)], s |-> rt.s]
       ELSE [r |-> [r2 EXCEPT !.queue = Append(@, rt.it)], s |-> rt.s]
+
+\* the emission-time assembly of buffered masters (ReaderCore!Assemble) over the window
+RECURSIVE AssembleB(_, _, _, _, _)
+AssembleB(sch, cfg, inp, r, s) ==
+  IF ~FrontBuffered(cfg, r) THEN [ready |-> TRUE, r |-> r, s |-> s]
+  ELSE LET st == r.queue[1]  e == EndOfBuffered(r.queue, st.id, 2, 0) IN
+    IF e = 0 THEN
+      LET n == ReadNextB(sch, cfg, inp, r, s) IN
+      IF Len(n.r.queue) = Len(r.queue) THEN [ready |-> FALSE, r |-> n.r, s |-> n.s] ELSE AssembleB(sch, cfg, inp, n.r, n.s)
+    ELSE IF r.queue[e].res = "err" THEN [ready |-> TRUE, r |-> [r EXCEPT !.queue = Drop(@, e - 1)], s |-> s]
+    ELSE [ready |-> TRUE, s |-> s,
+          r |-> [r EXCEPT !.queue = <<Item("full", st.id, st.off, "master", <<>>, RollUp(SubSeq(@, 2, e - 1)))>> \o Drop(@, e)]]
 
 \* Iterator::next; the "no data for now" of the source ends with the call
 NextCallB(sch, cfg, inp, r, s) ==
   LET n == IF r.queue = <<>> THEN ReadNextB(sch, cfg, inp, r, s) ELSE [r |-> r, s |-> s]
-      s1 == [n.s EXCEPT !.paused = FALSE]
-      r1 == [n.r EXCEPT !.pos = CurOff(s1)] IN
-  IF r1.queue = <<>> THEN [res |-> NoneRes, r |-> r1, s |-> s1]
+      a == AssembleB(sch, cfg, inp, n.r, n.s)
+      s1 == [a.s EXCEPT !.paused = FALSE]
+      r1 == [a.r EXCEPT !.pos = CurOff(s1)] IN
+  IF ~a.ready \/ r1.queue = <<>> THEN [res |-> NoneRes, r |-> r1, s |-> s1]
   ELSE [res |-> r1.queue[1], r |-> [r1 EXCEPT !.queue = Tail(@)], s |-> s1]
 
 \* window invariants
